@@ -153,6 +153,10 @@ def _same_place(a, b):
         return all(_same_place(x, y) or (x.get("k") == "lit" and y.get("k") == "lit" and x.get("v") == y.get("v")) for x, y in zip(a["args"], b["args"]))
     if k == "lit":
         return a.get("v") == b.get("v")
+    if k == "call":
+        if fb.callee(a) is None or fb.callee(a) != fb.callee(b) or len(a["args"]) != len(b["args"]):
+            return False
+        return all(_same_place(_strip_clone(x), _strip_clone(y)) for x, y in zip(a["args"], b["args"]))
     return False
 
 
@@ -185,6 +189,37 @@ def guarded_by_presence_test(site, parents):
     recv = site["recv"]
     yes = ("is_some", "is_ok")
     no = ("is_none", "is_err")
+    child = site
+    # (f) M.get(K).unwrap() under `if M.contains_key(K)`;  (g) X.first()/last()/last_mut()/pop().unwrap() after `if X.is_empty() { return }`
+    getter = recv if recv.get("k") == "mcall" else None
+    for p in reversed(parents):
+        k = p.get("k")
+        if k == "if" and getter is not None and child is p.get("t") and getter["name"] in ("get", "get_mut") and getter["args"]:
+            for cj in _conjuncts(p["c"]):
+                if cj.get("k") == "mcall" and cj["name"] == "contains_key" and cj["args"] and _same_place(cj["recv"], getter["recv"]) and _same_place(cj["args"][0], getter["args"][0]):
+                    return "then-branch of `if %s`" % fb.show(cj)
+        if k == "if" and child is p.get("t"):
+            # (e) `if let Some(_) = P` / `while let Some(_) = P` with P the same pure place as the receiver
+            for cj in _conjuncts(p["c"]):
+                if cj.get("k") == "letx" and any(v.endswith(("::Some", "::Ok")) for v in fb.pat_variants(cj["pat"]) if v) and _same_place(_strip_clone(cj["init"]), _strip_clone(recv)):
+                    return "inside `if/while let Some(_) = %s`" % fb.show(cj["init"])
+        if k == "block" and getter is not None and getter["name"] in ("first", "last", "last_mut", "first_mut", "pop") and not getter["args"]:
+            seq = list(p.get("stmts", []))
+            if p.get("e") is not None:
+                seq.append(p["e"])
+            for s_ in seq:
+                if s_ is child:
+                    break
+                if s_.get("k") == "if" and s_.get("e") is None and _is_diverging_block(s_.get("t")):
+                    for cj in _disjuncts(s_["c"]):
+                        emp = None
+                        if cj.get("k") == "mcall" and cj["name"] == "is_empty" and not cj["args"]:
+                            emp = cj["recv"]
+                        if cj.get("k") == "binary" and cj["op"] == "==" and cj["l"].get("k") == "mcall" and cj["l"]["name"] == "len" and cj["r"].get("k") == "lit" and cj["r"].get("v") == "i:0":
+                            emp = cj["l"]["recv"]
+                        if emp is not None and _same_place(emp, getter["recv"]):
+                            return "after early exit `if %s { return }`" % fb.show(cj)
+        child = p
     child = site
     for p in reversed(parents):
         k = p.get("k")
@@ -272,6 +307,8 @@ def sites_of(facts, fn):
             if c in UNWRAPS:
                 if node.get("m") and _macro_panic_kind(node.get("m")):
                     continue
+                if node.get("m") and any(t in node["m"] for t in ("instrument", "valueset", "fieldset", "callsite", "tracing")):
+                    continue     # generated by #[tracing::instrument], not repo logic
                 auto = guarded_by_presence_test(node, list(parents))
                 out.append((node["s"][0], Site(fn.def_, UNWRAPS[c], _origin(node["recv"]), "%s:%s" % (fn.file, node.get("ln")),
                                                fb.show(node)[:200], auto)))
@@ -303,8 +340,22 @@ def sites_of(facts, fn):
                 if msg.startswith("overflow") or msg in ("div0", "rem0"):
                     if t.get("m") and "desugar:ForLoop" in t.get("m"):
                         continue
-                    out.append((t["s"][0], Site(fn.def_, "arith", msg, "%s:%s" % (fn.file, t.get("ln")),
-                                                "arithmetic assert %s" % msg, None, b.def_)))
+                    # operands of the checked operation (same block): skip constant folding artefacts (enum casts)
+                    cl = (t.get("c") or "").split(" ")[-1].split(".")[0]
+                    ops, ty = None, "?"
+                    for st in blk["stmts"]:
+                        if st["l"] == cl and st["rv"].get("k") == "binop":
+                            ops = st["rv"].get("ops", [])
+                            try:
+                                ty = b.mir["locals"][int(cl[1:])].strip("()").split(",")[0]
+                            except (ValueError, IndexError):
+                                ty = "?"
+                    if ops is not None and all(o.startswith("const") for o in ops):
+                        continue
+                    shape = ",".join("const" if o.startswith("const") else "var" for o in (ops or []))
+                    origin = "%s<%s>(%s)" % (msg, ty, shape)
+                    out.append((t["s"][0], Site(fn.def_, "arith", origin, "%s:%s" % (fn.file, t.get("ln")),
+                                                "arithmetic assert %s on %s" % (msg, ty), None, b.def_)))
     out.sort(key=lambda x: x[0])
     counts = {}
     res = []
@@ -331,7 +382,7 @@ def table():
     return _TABLE
 
 
-def inventory(facts, rep, rule, roots, floor=None, exclude=()):
+def inventory(facts, rep, rule, roots, floor=None, exclude=(), prop=None):
     """Evaluate the inventory rule for `roots`; record instances on `rep`. Returns list of Sites."""
     cg = facts.callgraph
     reach = cg.reachable_from(roots)
@@ -349,6 +400,8 @@ def inventory(facts, rep, rule, roots, floor=None, exclude=()):
                 rep.ok(rule, s.key, "discharged by local guard: " + s.auto, s.loc)
                 continue
             ent = tab.get(s.key)
+            if ent is not None and prop and prop in ent.get("props", {}):
+                ent = ent["props"][prop]
             if ent is None:
                 path = cg.path_to(roots, s.fn) or [s.fn]
                 rep.violation(rule, s.key, "new panic site `%s` reachable via %s; not discharged by a local guard and not in tables/panics.json"
